@@ -716,7 +716,13 @@ impl<'a> R<'a> {
                     self.out.push(quote);
                     (vs, ve)
                 } else {
-                    self.spell_attr_value(&value, extra)
+                    let keep = self.attr_points.len();
+                    let r = self.spell_attr_value(&value, extra);
+                    if aloc == "xmlns" {
+                        let moved: Vec<usize> = self.attr_points.drain(keep..).collect();
+                        self.decl_points.extend(moved);
+                    }
+                    r
                 };
                 self.span(path, "AV", ai, vs, ve);
                 ai += 1;
